@@ -62,6 +62,16 @@ impl<'a> G<'a> {
     fn gopen(&mut self) { self.p("("); self.open_parens += 1; self.open_text += 1; }
     fn gclose(&mut self) { self.p(")"); self.open_parens = self.open_parens.saturating_sub(1); self.open_text = self.open_text.saturating_sub(1); }
     // a point inside open call parentheses at which the input may be cut: every '(' still open there must get its virtual ')'
+    // a name whose first and second characters are drawn from the whole ASCII name alphabet
+    fn rand_name(&mut self) -> String {
+        const START: &[u8] = b"abcdefghijklmnopqrstuvwxyzABCDEFGHIJKLMNOPQRSTUVWXYZ_";
+        const CONT: &[u8] = b"abcdefghijklmnopqrstuvwxyzABCDEFGHIJKLMNOPQRSTUVWXYZ_0123456789";
+        let mut n = String::new();
+        n.push(START[self.u.below(START.len())] as char);
+        n.push(CONT[self.u.below(CONT.len())] as char);
+        n.push_str("q7");
+        n
+    }
     fn tp(&mut self) { if self.open_parens > 0 { self.trunc_points.push((self.out.len(), self.open_parens, self.open_calls, self.open_text)); } }
     fn anchor(&mut self) -> usize { self.anchors.push(self.out.len()); self.anchors.len() - 1 }
     // insignificant whitespace/comments (hidden)
@@ -528,8 +538,8 @@ impl<'a> G<'a> {
         self.pk("%end"); self.ows(); self.del_mark(";", "SEMI", "MissingExpectedSemiOrEOF", false);
     }
     fn macro_def(&mut self) {
-        self.feat("macro-def"); self.pk("%macro"); self.rws(); let nm = self.pick(MNAMES); self.p(nm);
-        if self.u.coin(2, 3) { self.ows(); self.mark("(", MK::Delim("LPAREN", false)); let n = self.u.below(4); for i in 0..n { if i > 0 { self.mark(",", MK::Delim("COMMA", false)); } self.ows(); let a = if self.u.coin(1, 4) { self.feat("keyword-spelled-name"); self.pick(KWNAMES) } else { self.pick(&["p1", "arg", "_k", "ds", "calc_rolling_std_for_all_numeric", "output_dataset_name_with_prefix"]) }; self.p(a); self.ows(); if self.u.coin(1, 2) { self.feat("def-default"); self.mark("=", MK::Delim("ASSIGN", false)); self.ows(); if self.u.coin(2, 3) { self.arg_value(true); } } } if n == 0 { self.ows(); } self.mark(")", MK::Delim("RPAREN", false)); }
+        self.feat("macro-def"); self.pk("%macro"); self.rws(); let nm: String = if self.u.coin(1, 3) { self.rand_name() } else { self.pick(MNAMES).to_string() }; let nm = nm.as_str(); self.p(nm);
+        if self.u.coin(2, 3) { self.ows(); self.mark("(", MK::Delim("LPAREN", false)); let n = self.u.below(4); for i in 0..n { if i > 0 { self.mark(",", MK::Delim("COMMA", false)); } self.ows(); let rn = self.rand_name(); let a = if self.u.coin(1, 4) { rn.as_str() } else if self.u.coin(1, 4) { self.feat("keyword-spelled-name"); self.pick(KWNAMES) } else { self.pick(&["p1", "arg", "_k", "ds", "calc_rolling_std_for_all_numeric", "output_dataset_name_with_prefix"]) }; self.p(a); self.ows(); if self.u.coin(1, 2) { self.feat("def-default"); self.mark("=", MK::Delim("ASSIGN", false)); self.ows(); if self.u.coin(2, 3) { self.arg_value(true); } } } if n == 0 { self.ows(); } self.mark(")", MK::Delim("RPAREN", false)); }
         if self.u.coin(1, 3) { self.ows(); let o = self.pick(&["/ des='x' minoperator", "/ store source", "/ parmbuff", "/ minoperator mindelimiter=','", "/ DES=\"a;b\" secure", "/store", "/ des='it''s'"]); self.p(o); }
         self.ows(); self.mark(";", MK::Delim("SEMI", false));
         self.in_macro += 1; self.body(); self.in_macro -= 1;
